@@ -129,6 +129,11 @@ def check_join_output(s, w, res):
         if seen[pk] > 1:
             out.append(('C02', 'duplicate', 'key pair %r occurs %d times' % (pk, seen[pk])))
         if kind == 'filter':
+            if s.get('filter') in ('PrefixFilter', 'PositionFilter', 'OverlapFilter'):
+                lt, rt = w.tokset(lv), w.tokset(rv)
+                if (len(lt) or len(rt)) and ref.overlap_size(lt, rt) == 0:
+                    out.append(('C14', 'no-common-token', '%s lists pair %r although the two values '
+                                'have no token in common' % (s.get('filter'), pk)))
             continue
         lt, rt = w.tokset(lv), w.tokset(rv)
         n, m = len(lt), len(rt)
